@@ -4,6 +4,7 @@ import (
 	"fmt"
 	"go/types"
 	"path/filepath"
+	"strings"
 	"unicode"
 
 	"golang.org/x/tools/go/ssa"
@@ -104,6 +105,14 @@ func (w *Worker) harnessIntrinsic(st *State, f *Frame, x ssa.Value, name string,
 		w.job.mu.Lock()
 		w.job.Reached[id]++
 		w.job.mu.Unlock()
+	case "verifRecord":
+		txt, ok := constString(args[0])
+		if !ok {
+			panic(engineErr("verifRecord of a symbolic string"))
+		}
+		w.job.mu.Lock()
+		w.job.Records = append(w.job.Records, strings.ReplaceAll(txt, "\n", "\\n"))
+		w.job.mu.Unlock()
 	case "verifSample":
 		// records a human-readable sample of what this path explored
 		id, _ := constString(args[0])
@@ -130,25 +139,28 @@ func (w *Worker) harnessIntrinsic(st *State, f *Frame, x ssa.Value, name string,
 		set(strLit(st.trace[w.evIndex(st, args[0])].Fmt))
 	case "verifSameObject":
 		a, b := args[0].(*Union), args[1].(*Union)
-		ka, oka := a.constKind()
-		kb, okb := b.constKind()
-		if !oka || !okb {
-			panic(engineErr("verifSameObject on symbolic kinds"))
-		}
-		same := false
-		if ka == kb && ka != KNil {
-			switch pa := a.P[ka].(type) {
+		res := mkBool(false)
+		for _, k := range a.kindsSorted() {
+			pb, ok := b.P[k]
+			if !ok {
+				continue
+			}
+			same := false
+			switch pa := a.P[k].(type) {
 			case SliceV:
-				pb := b.P[kb].(SliceV)
-				same = pa.id == pb.id && pa.off == pb.off
+				q := pb.(SliceV)
+				same = pa.id != 0 && pa.id == q.id && pa.off == q.off
 			case MapV:
-				same = pa.id == b.P[kb].(MapV).id
+				same = pa.id != 0 && pa.id == pb.(MapV).id
 			case Ptr:
-				pb := b.P[kb].(Ptr)
-				same = pa.id == pb.id && fmt.Sprint(pa.path) == fmt.Sprint(pb.path)
+				q := pb.(Ptr)
+				same = pa.id != 0 && pa.id == q.id && fmt.Sprint(pa.path) == fmt.Sprint(q.path)
+			}
+			if same {
+				res = mkOr(res, mkAnd(a.isKind(k), b.isKind(k)))
 			}
 		}
-		set(mkBool(same))
+		set(res)
 	case "verifSharesBacking":
 		a, b := args[0].(SliceV), args[1].(SliceV)
 		set(mkBool(a.id != 0 && a.id == b.id))
